@@ -275,7 +275,7 @@ def lock(ctx: Ctx) -> List[Ob]:
         if h.qualname in ("Tree.__enter__", "Tree.__exit__"):
             continue
         for c in ctx.env.calls_in[h]:
-            if isinstance(c.func, ast.Attribute) and c.func.attr in ("acquire", "release") and norm(c.func.value).endswith("._lock"):
+            if isinstance(c.func, ast.Attribute) and c.func.attr in ("acquire", "release", "__enter__", "__exit__") and norm(c.func.value).endswith("._lock"):
                 raw.append((h, c))
     obs.append(ctx.ob("LOCK", ["C18", "C13"], raw[0][0] if raw else "package", "the tree lock is acquired and released only by `with tree:` (__enter__/__exit__)", raw[0][1] if raw else None, not raw,
                       "" if not raw else f"{raw[0][0].qualname} calls `{norm(raw[0][1])}` directly: without try/finally an exception (e.g. from a mapper) leaves the lock held "
@@ -283,8 +283,8 @@ def lock(ctx: Ctx) -> List[Ob]:
     # LOCK-2 ---------------------------------------------------------------
     ent = m.func("Tree.__enter__")
     ex = m.func("Tree.__exit__")
-    acq = [c for c in ctx.env.calls_in[ent] if isinstance(c.func, ast.Attribute) and c.func.attr == "acquire" and norm(c.func.value) == "self._lock"]
-    ok = bool(acq) and all(not c.args and not c.keywords for c in acq)
+    acq = [c for c in ctx.env.calls_in[ent] if isinstance(c.func, ast.Attribute) and c.func.attr in ("acquire", "__enter__") and norm(c.func.value) == "self._lock"]
+    ok = bool(acq) and all(not c.args and not c.keywords for c in acq)  # (RLock.__enter__ is acquire())
     cfg = ctx.cfg(ent)
     if ok:
         an = cfg.stmt_node_of(acq[0], m.parent_of)
@@ -294,7 +294,7 @@ def lock(ctx: Ctx) -> List[Ob]:
     rets = [n for n in iter_own(ent.node) if isinstance(n, ast.Return)]
     ok = bool(rets) and all(r.value is not None and norm(r.value) == "self" for r in rets)
     obs.append(ctx.ob("LOCK", ["C18"], ent, "__enter__ returns self", None, ok, "" if ok else "`with tree as t:` must bind the tree"))
-    rel = [c for c in ctx.env.calls_in[ex] if isinstance(c.func, ast.Attribute) and c.func.attr == "release" and norm(c.func.value) == "self._lock"]
+    rel = [c for c in ctx.env.calls_in[ex] if isinstance(c.func, ast.Attribute) and c.func.attr in ("release", "__exit__") and norm(c.func.value) == "self._lock"]  # (RLock.__exit__ is release())
     cfg = ctx.cfg(ex)
     ok = bool(rel)
     if ok:
